@@ -504,6 +504,183 @@ def _c_rename(f, mp):
                         fix(v2)
 
 
+# ---- inlining of newly introduced scalar temporaries (hoisted invariants, offsets) ---------------------------------------
+def _clone(node):
+    if isinstance(node, list):
+        return [_clone(x) for x in node]
+    if not isinstance(node, ast.AST):
+        return node
+    new = type(node)()
+    for fld in node._fields:
+        if hasattr(node, fld):
+            setattr(new, fld, _clone(getattr(node, fld)))
+    return new
+
+
+def _base_type(ctype):
+    words = [w for w in ctype.replace('*', ' * ').split() if w not in ('const', 'static', 'register', 'unsigned', 'signed', 'long', 'short')]
+    if '*' in words:
+        return None
+    if 'double' in words or 'float' in words:
+        return 'double'
+    if 'int' in words or not words:
+        return 'int'
+    return None
+
+
+def _expr_fields(st):
+    """(holder, attribute) of every expression slot of a statement (not descending into bodies)"""
+    out = []
+    if isinstance(st, CDecl):
+        out.append((st, 'init'))
+    elif isinstance(st, CAssign):
+        out += [(st, 'target'), (st, 'value')]
+    elif isinstance(st, CExpr):
+        out.append((st, 'expr'))
+    elif isinstance(st, CFor):
+        for part in (st.init, st.step):
+            if part is not None:
+                out += _expr_fields(part)
+        out.append((st, 'cond'))
+    elif isinstance(st, CIf):
+        out.append((st, 'cond'))
+    elif isinstance(st, CReturn):
+        out.append((st, 'value'))
+    return out
+
+
+def _nested(stmts):
+    for st in stmts:
+        yield st
+        if isinstance(st, CFor):
+            yield from _nested(st.body)
+        elif isinstance(st, CIf):
+            yield from _nested(st.body)
+            yield from _nested(st.orelse)
+
+
+def _assigned_in(stmts):
+    """names assigned (or whose address is taken) by the statements, nested ones included"""
+    out = set()
+    for st in _nested(stmts):
+        parts = [st] + ([p for p in (st.init, st.step) if p is not None] if isinstance(st, CFor) else [])
+        for q in parts:
+            if isinstance(q, CAssign) and isinstance(q.target, ast.Name):
+                out.add(q.target.id)
+            if isinstance(q, CDecl) and q.init is not None:
+                out.add(q.name)
+        for h, a in _expr_fields(st):
+            e = getattr(h, a)
+            if isinstance(e, ast.AST):
+                for n in ast.walk(e):
+                    if isinstance(n, ast.Call) and isinstance(n.func, ast.Name) and n.func.id == 'addr' and n.args and isinstance(n.args[0], ast.Name):
+                        out.add(n.args[0].id)
+    return out
+
+
+def c_inline_new_scalars(f, recorded):
+    """A scalar local that the confirmed form of the function does not have, that is assigned exactly once from a pure
+    arithmetic expression of the same C type, whose operands do not change between the assignment and the uses, and that is
+    only read after the assignment in the same block, is replaced by its defining expression (a hoisted loop invariant or a
+    named offset: substitution of an expression of the same type for a single-assignment variable preserves every value)."""
+    done = 0
+    for _round in range(40):
+        types = {pn: _base_type(pt) for pt, pn in f.params}
+        decls = {}
+        for st in f.walk():
+            if isinstance(st, CDecl):
+                decls[st.name] = st
+                types[st.name] = None if (st.pointer or st.array) else _base_type(st.ctype)
+
+        def ty(e):
+            if isinstance(e, ast.Constant):
+                return 'int' if isinstance(e.value, int) else 'double'
+            if isinstance(e, ast.Name):
+                return types.get(e.id)
+            if isinstance(e, ast.UnaryOp) and isinstance(e.op, ast.USub):
+                return ty(e.operand)
+            if isinstance(e, ast.BinOp) and isinstance(e.op, (ast.Add, ast.Sub, ast.Mult, ast.Div)):
+                a, b = ty(e.left), ty(e.right)
+                if a is None or b is None:
+                    return None
+                return 'double' if 'double' in (a, b) else 'int'
+            return None
+        cands = [n for n in decls if n not in recorded and types.get(n) in ('int', 'double')]
+        progressed = False
+        for name in cands:
+            # the single definition
+            defs = []
+
+            def find(stmts):
+                for i, st in enumerate(stmts):
+                    if isinstance(st, CDecl) and st.name == name and st.init is not None:
+                        defs.append((stmts, i, st.init))
+                    if isinstance(st, CAssign) and isinstance(st.target, ast.Name) and st.target.id == name:
+                        defs.append((stmts, i, st.value if st.op == '=' else None))
+                    if isinstance(st, CFor):
+                        for part in (st.init, st.step):
+                            if isinstance(part, CAssign) and isinstance(part.target, ast.Name) and part.target.id == name:
+                                defs.append((None, None, None))
+                        find(st.body)
+                    elif isinstance(st, CIf):
+                        find(st.body)
+                        find(st.orelse)
+            find(f.body)
+            if len(defs) != 1 or defs[0][2] is None:
+                continue
+            blk, i, value = defs[0]
+            if ty(value) != types[name]:
+                continue
+            operands = {n.id for n in ast.walk(value) if isinstance(n, ast.Name)}
+            if name in operands:
+                continue
+            rest = blk[i + 1:]
+            changed = _assigned_in(rest)
+            if operands & changed or name in changed:
+                continue
+            # every read lies in the rest of the block
+            def reads(stmts):
+                c = 0
+                for st in _nested(stmts):
+                    for h, a in _expr_fields(st):
+                        e = getattr(h, a)
+                        if isinstance(e, ast.AST):
+                            c += sum(1 for n in ast.walk(e) if isinstance(n, ast.Name) and n.id == name)
+                return c
+            total = reads(f.body)
+            own = 1 if isinstance(blk[i], CAssign) else 0       # the target of the defining assignment
+            if reads(rest) != total - own:
+                continue
+
+            class Sub(ast.NodeTransformer):
+                def visit_Name(self, n):
+                    return _clone(value) if n.id == name else n
+            for st in _nested(rest):
+                for h, a in _expr_fields(st):
+                    e = getattr(h, a)
+                    if isinstance(e, ast.AST):
+                        setattr(h, a, Sub().visit(e))
+            # remove the definition and the declaration
+            del blk[i]
+
+            def drop(stmts):
+                for j, st in enumerate(list(stmts)):
+                    if isinstance(st, CDecl) and st.name == name:
+                        stmts.remove(st)
+                    elif isinstance(st, CFor):
+                        drop(st.body)
+                    elif isinstance(st, CIf):
+                        drop(st.body)
+                        drop(st.orelse)
+            drop(f.body)
+            done += 1
+            progressed = True
+            break
+        if not progressed:
+            break
+    return done
+
+
 def c_alpha_normalise(f):
     global _C_TABLE
     if _C_TABLE is None:
@@ -514,6 +691,7 @@ def c_alpha_normalise(f):
     if not rec:
         return 0
     from .alpha import pairing
+    c_inline_new_scalars(f, set(rec))
     cur = c_locals(f)
     used = set(f.param_names())
     for st in f.walk():
